@@ -23,7 +23,9 @@ class C03(rt.RoundTrip):
         from mc import alphabets as al
 
         if self.tier == "thorough":
-            return rt.OptSpace(al.ir_space(self.tier), self.all_options((2, 0, 1)))
+            full = self.all_options((2, 0, 1))
+            return core.Concat(rt.OptSpace(al.ir_space(self.tier), full),
+                               rt.OptSpace(al.S_B((2,)), [dict(o, ftnone=True) for o in self.all_options((2,))]))
         full = self.all_options((2,))
         # quick: atom-exhaustive space x 6 combinations (each kind, each flag value), sequence space x 3
         qa = [o for o in full if (o["ft"], o["inline"], o["kwonly"]) in (
@@ -31,7 +33,11 @@ class C03(rt.RoundTrip):
             ("cls", True, True), ("cls", False, False))]
         qb = [o for o in full if (o["ft"], o["inline"], o["kwonly"]) in (
             ("static", True, True), ("self", False, False), ("cls", True, False))]
-        return core.Concat(rt.OptSpace(al.S_A(), qa), rt.OptSpace(al.S_B(), qb))
+        # collision pairs x every combination; plus the "name and type taken from the IR" call form (function_name=None,
+        # function_type=None) for each function type
+        qn = [dict(o, ftnone=True) for o in qb]
+        return core.Concat(rt.OptSpace(al.S_A(), qa), rt.OptSpace(al.S_B(), qb), rt.OptSpace(al.S_D(), full),
+                           rt.OptSpace(al.S_B((2,)), qn))
 
     def extra_sites(self, case, atoms, ret, text, back, cf):
         want = case["opts"]["ft"]
